@@ -229,8 +229,29 @@ def run(repo, rep):
     # _get_dul_message: DIMSE tuples returned, PDUs mapped
     gm = base.find_method('_get_dul_message')
     rep.analysed(gm)
-    src = norm(gm.node)
-    ok = 'isinstance(dul_msg, tuple)' in src and 'self._handle_errors(dul_msg)' in src
+    # by paths: what is received is returned when it is a (DIMSE message, context) tuple, and handed to
+    # _handle_errors otherwise, whatever the local is called
+    from ..sym import SymClient as _SC, empty_state as _es
+    gc_ = _SC(repo, gm, event_of=lambda call, callee, *_: 'handle' if callee.endswith('_handle_errors') else
+              'receive' if callee.endswith('dul.receive') else None, hierarchy=hier,
+              raises_of=lambda node, cl, st: ['NetDICOMError'] if False else [])
+    go_ = gc_.run(_es())
+    rcv = 'self.dul.receive(self.ae.timeout)'
+    ok = True
+    n_ret = n_err = 0
+    for s_, how_ in gc_.final_states(go_):
+        tuple_yes = ('+isinstance(%s, tuple)' % rcv) in s_.conds
+        tuple_no = ('-isinstance(%s, tuple)' % rcv) in s_.conds
+        handled = [e_ for e_ in s_.trail if e_.kind == 'handle']
+        if how_ == 'return':
+            n_ret += 1
+            if not tuple_yes or s_.ret != rcv:
+                ok = False
+        else:
+            n_err += 1
+            if not tuple_no or not handled or handled[0].args[:1] != (rcv,):
+                ok = False
+    ok = ok and n_ret >= 1 and n_err >= 1
     rep.check(ok, 'C14.J2', 'asceprovider:Association._get_dul_message:dispatch', gm.loc(),
               'DIMSE messages are returned, anything else goes through _handle_errors', 'received PDUs are not passed to _handle_errors')
     # handle(): no service after refusal; release answered
